@@ -23,6 +23,8 @@ pub const POOL_HOSTILE: &[char] = &[
     ' ', '/', '\\', '-', '|', ',', '"', '\r', '\n', '\t', '\u{200d}', '🇯', '🇵', '\u{3099}',
     '\u{fe0f}', '\u{0301}', 'ﾞ', '%', '#', '.', '\u{1f3fd}', '\u{1100}', '\u{1161}', '\u{11a8}',
     '\u{7f}', '\u{85}', '\u{2028}', '\u{feff}', '\u{3000}', '\u{a0}', '\u{200b}', '\u{ad}', '\u{fffd}',
+    // the neighbours of CR / LF among the control codes and the other Unicode line separators
+    '\u{b}', '\u{c}', '\u{1c}', '\u{1d}', '\u{1e}', '\u{1f}', '\u{2029}', '\u{8}', '\u{e}',
 ];
 
 pub const POOLS: &[&[char]] = &[
@@ -675,6 +677,62 @@ pub fn annotated_sentence(
     tags_everywhere: bool,
 ) -> impl Strategy<Value = oracle::RefSentence> {
     raw_sentence(max_len, label_kinds).prop_map(move |r| resolve_sentence(&r, tags_everywhere))
+}
+
+/// Deterministic annotated sentences at sizes random generation does not reach: lengths around
+/// and beyond 65,535 characters, a single token of 70,000 characters, hundreds of tag columns, a
+/// tag of 70,000 characters, thousands of one-character tokens. `label_kinds` 2: boundary /
+/// non-boundary only, 3: also unknown; `tags_everywhere`: tags also on characters that do not
+/// end a token.
+pub fn scale_sentences(label_kinds: u8, tags_everywhere: bool) -> Vec<oracle::RefSentence> {
+    use oracle::RefSentence;
+    let pool = ['a', 'é', 'あ', '𠀋', '火', ' ', '/', '\\', '-', '|', 'b', 'ア', '1', '。'];
+    let tagpool = ["名詞", "a/b", "x y", "q\\", "N-1", "|", "t"];
+    let mk = |n: usize, period: usize, n_tags: usize, salt: usize| -> RefSentence {
+        let chars: Vec<char> = (0..n).map(|i| pool[(i * 5 + i / 7 + salt) % pool.len()]).collect();
+        let labels: Vec<u8> = (0..n.saturating_sub(1))
+            .map(|i| {
+                if period > 0 && (i + 1) % period == 0 {
+                    1
+                } else if label_kinds == 3 && (i * 13 + salt) % 97 == 0 {
+                    2
+                } else {
+                    0
+                }
+            })
+            .collect();
+        let ends: std::collections::HashSet<usize> = oracle::ref_tokens(&labels.iter().map(|&l| if l == 2 { 0 } else { l }).collect::<Vec<u8>>()).iter().map(|t| t.end - 1).collect();
+        let tags = (0..n)
+            .map(|i| {
+                if n_tags == 0 || !(tags_everywhere || ends.contains(&i)) || (i + salt) % 3 == 0 {
+                    vec![]
+                } else {
+                    (0..n_tags).map(|j| if (i + j * 2 + salt) % 4 == 0 { None } else { Some(tagpool[(i + j) % tagpool.len()].to_string()) }).collect()
+                }
+            })
+            .collect();
+        RefSentence { chars, labels, tags, n_tags }
+    };
+    let mut v = vec![
+        mk(65_535, 5, 2, 0),
+        mk(65_536, 7, 1, 1),
+        mk(65_537, 3, 3, 2),
+        mk(70_000, 0, 1, 3),      // one token of 70,000 characters
+        mk(70_000, 1, 0, 4),      // 70,000 one-character tokens
+        mk(131_080, 11, 2, 5),
+        mk(40, 4, 255, 6),
+        mk(40, 4, 256, 7),
+        mk(40, 4, 300, 8),
+        mk(300, 17, 3, 9),
+        mk(300, 64, 2, 10),
+    ];
+    // a tag of 70,000 characters (with delimiters inside)
+    let mut long_tag = mk(12, 3, 2, 11);
+    let big: String = (0..70_000).map(|i| ['t', '/', ' ', 'あ', '\\', '-', '|', '𠀋'][(i * 3 + i / 11) % 8]).collect();
+    let last = long_tag.chars.len() - 1;
+    long_tag.tags[last] = vec![Some(big), Some("z".into())];
+    v.push(long_tag);
+    v
 }
 
 // ------------------------------------------------------------------------------------------
